@@ -111,6 +111,13 @@ def rewrite_sim(rel, text, arch, osname, counts):
     cnt("asm", n)
     text, n = re.subn(r'(?<![A-Za-z0-9_:])mach2::', '::simos::mach2::', text)
     cnt("mach2", n)
+    # procfs seam: /proc/self/maps and /proc/self/mem are views of the simulated address space
+    text, n = re.subn(r'(?<![A-Za-z0-9_:])std::os::unix::fs::FileExt', '::simos::fs::FileExt', text)
+    cnt("fs", n)
+    text, n = re.subn(r'(?<![A-Za-z0-9_:])use std::fs;', 'use ::simos::fs;', text)
+    cnt("fs", n)
+    text, n = re.subn(r'(?<![A-Za-z0-9_:])std::fs::', '::simos::fs::', text)
+    cnt("fs", n)
     return text
 
 
